@@ -125,6 +125,7 @@ class Sched:
         self.preempt_plan = None  # set of line-event indices
         self.line_events = 0
         self.preempt_sites = []
+        self.line_log = []
         self.poplog = None
         self.hooks_at_step = {}  # step -> [callable]  (fault triggers)
         self.on_quiescent = None
